@@ -6,7 +6,7 @@ ID = 'C03'
 HARNESSES = ['h_c01.cpp', 'h_load.cpp', 'h_hist.cpp']
 LEVEL = 'model_checking'
 BUDGET = {'quick': 280, 'thorough': 3000}
-BOUNDS = {'quick': 'objects built through the API (C01 quick shapes/orders/extra parameters), objects reached by every history of 2 public calls (56-operation alphabet) from the declared and the populated start state (thorough: also fresh, loaded and loaded-with-deviating-lists), and loaded-then-edited objects; parameter-section length steered through ALL 512 residues modulo the block size (520 consecutive lengths); plus objects whose parameter section fills 254 and 255 blocks (data start block 256/257); payload symbolic (data floats free, so the byte following the parameter section is any value)',
+BOUNDS = {'quick': 'objects LOADED from reference-encoded files in every vendor layout of C02 (parameter section in block 3, leading zero bytes, zeroed prologue, sparse / out-of-order ids, reversed and parameters-first record order, events, fewer/more labels) and saved unchanged; objects built through the API (C01 quick shapes/orders/extra parameters), objects reached by every history of 2 public calls (58-operation alphabet) from the declared and the populated start state (thorough: also fresh, loaded and loaded-with-deviating-lists), and loaded-then-edited objects; parameter-section length steered through ALL 512 residues modulo the block size (520 consecutive lengths); plus objects whose parameter section fills 254 and 255 blocks (data start block 256/257); payload symbolic (data floats free, so the byte following the parameter section is any value)',
           'thorough': 'two full sweeps of the residues (1040 lengths, sections of 2-4 blocks); C01 thorough shapes'}
 OUTSIDE = 'histories deeper than load + 2 edits; parameter sections longer than 3 blocks'
 ASSUMPTIONS = ['the reference decoder oracle/c3dref.py follows only the file\'s own pointers (header byte 1, POINT:DATA_START, next-offsets)']
@@ -26,10 +26,17 @@ def jobs(tier, seed):
     # parameter sections of 253..255 blocks (the data then start at block 255..257: the block numbers no longer fit one byte)
     for v in ((492, 494) if tier == 'quick' else (488, 490, 492, 494)):
         out.append({'entry': 'h_c17', 'harness': 'h_c01.cpp', 'cfg': {'kind': 9, 'value': v, 'obsfile': 1}, 'name': 'many-blocks'})
-    # objects reached through a history of public calls (56-operation alphabet), then saved
+    # objects reached through a history of public calls (58-operation alphabet), then saved
     from . import histcommon
     for j in histcommon.hist_jobs('quick', seed, finish=4, extra_starts=(3,)):          # depth 2 in both tiers (a save and a full structural decode end every path)
         if j['cfg']['start'] in ((1, 2) if tier == 'quick' else (0, 1, 2, 3, 6)): out.append(j)
+    # objects LOADED from files in the vendor layouts (parameter section not in block 2, leading zero bytes, zeroed prologue, sparse
+    # or out-of-order group ids, reversed records, events, fewer/more labels), then saved: the saved file must stand on its own pointers
+    from . import c02
+    for j in c02.jobs(tier, seed):
+        if is_sweep(j) or str(j['name']).startswith('shape') or j['name'] in ('desc128', 'desc255', 'no_frames'): continue
+        j = dict(j); j['cfg'] = {'gens': 1, 'dump': 1, 'obsfiles': 1}; j['lname'] = j['name']; j['name'] = 'loaded'
+        out.append(j)
     return out
 
 def struct_obligations(cells, M, job, st, prefix):
@@ -92,6 +99,15 @@ def obligations(sec, job, st):
         O += obsmodel.compare_loaded_with_file(D, frames, M, 'saved/content', {'match': 'position', 'skip_data_start_value': True, 'skip_data_start_word': True, 'file_is_actual': True})
     return O
 
+def loaded_obligations(sec, job, st):
+    M = obsmodel.parse_dump(sec['gen1'])
+    cells = [cell_value(c) for c in dict(sec['files1'])['#file:gen2.c3d']]
+    pre = 'loaded-then-saved'
+    O, D, frames = struct_obligations(cells, M, job, st, pre)
+    if D is not None:
+        O += obsmodel.compare_loaded_with_file(D, frames, M, pre + '/content', {'match': 'name', 'skip_data_start_value': True, 'skip_data_start_word': True, 'file_is_actual': True})
+    return O
+
 def hist_final(sec, st, tag):
     if tag and tag != '@rate-changed-with-data': return []      # gap frames / empty frames / rates zeroed with data: recorded findings (C05), outside this claim
     return obligations(sec, None, st)
@@ -100,13 +116,17 @@ def run_job(engine, job):
     if job.get('name') == 'hist':
         from . import histcommon
         return histcommon.explore(engine, job, ID, lambda *a: [], final=hist_final)
+    if job['name'] == 'loaded':
+        from . import c02, gen
+        S, c, lay, cells = c02.build_file(dict(job, name=job['lname']))
+        return std_run(engine, job, loaded_obligations, 'end', ID, 'loaded-' + job['lname'], files={'in.c3d': gen.to_engine_cells(cells)}, assume=S.cons)
     if job['name'] == 'many-blocks': return std_run(engine, job, obligations, 'c17.end', ID, job['name'], wall=280, maxsteps=400_000_000)
     return std_run(engine, job, obligations, 'save.end', ID, job['name'])
 
 def native_confirm(nat, v):
     out, sec = native_sections(nat, v['replay'])
     if out['rc'] != 0: return None
-    obls = obligations(sec, v['job'], None)
+    obls = loaded_obligations(sec, v['job'], None) if v['job'].get('name') == 'loaded' else obligations(sec, v['job'], None)
     locus = v['id'].split('/', 2)[-1].split('@')[0]
     bad = [o.locus for o in obls if o.bad is True]
     if locus in bad: return True
